@@ -4,7 +4,8 @@ Model of loguru's formatting paths on MARKUP-FREE text (`AnsiParser.feed`/`strip
 there; markup belongs to area Markup / C06):
 
 * `prepareFormat`  = `Colorizer.prepare_format(t).strip()`      (`_parse_without_formatting`)
-* `coloredFormat`  = `Colorizer.prepare_message(t, args, kwargs).stripped` (`_parse_with_formatting`)
+* `coloredFormat`  = `Colorizer.prepare_message(t, args, kwargs).stripped` (`_parse_with_formatting`;
+  the markup parser is an oracle `mk`, and which texts reach it is regenerated)
 * `logMessage`     = the message branch of `Logger._log`
 * `addFormat`, `emitText` = `Logger.add`'s format composition and `Handler.emit`'s formatting chain
 
@@ -52,7 +53,7 @@ def reserField (f : Field) : Str := (Gen.fieldParts.map (evalPart f)).flatten
 def reserPiece (p : Piece) : Str :=
   doubleLast p.lit ++ (match p.field with | none => [] | some f => reserField f)
 
-/-- concatenation of the TEXT tokens = `ColoredFormat.strip()` on markup-free text -/
+/-- the re-assembled template when no text is touched by the markup parser (markup-free template) -/
 def reserialize : List Piece → Str
   | [] => []
   | p :: ps => reserPiece p ++ reserialize ps
@@ -65,9 +66,48 @@ def prepCheck : Nat → Str → Bool
       | none => true
       | some f => prepCheck d f.spec)
 
-/-- `Colorizer.prepare_format(t).strip()` -/
-def prepareFormat (t : Str) : Except Err Str :=
-  if prepCheck levelsWithout t then .ok (reserialize (parse t).1) else .error .valueError
+/-- `parser.feed(text, raw=raw)` followed by `strip`, for ONE text: verbatim when `raw`, otherwise
+whatever the markup parser makes of it – `mk` is an oracle (area Markup / C06 owns the tag language;
+errors that depend on tags left open across several texts are outside this model) -/
+def feedLit (mk : Str → Except Err Str) (raw : Bool) (s : Str) : Except Err Str :=
+  if raw then .ok s else mk s
+
+def okB {α : Type} : Except Err α → Bool
+  | .ok _ => true
+  | .error _ => false
+
+/-- every text `_parse_without_formatting(…, recursive=rec)` hands to the markup parser is accepted by
+it; which texts are handed over verbatim is REGENERATED (`Gen.literalRawWithout`, `Gen.fieldRawWithout`,
+`Gen.nestedRecursiveWithout`): on the current code only the top-level literal texts are parsed as markup -/
+def feedsOk (mk : Str → Except Err Str) : Nat → Bool → Str → Bool
+  | 0, _, _ => true
+  | d + 1, rec, t =>
+    (parse t).1.all (fun p =>
+      okB (feedLit mk (Gen.literalRawWithout rec) (doubleLast p.lit)) &&
+      match p.field with
+      | none => true
+      | some f => okB (feedLit mk (Gen.fieldRawWithout rec) (reserField f)) &&
+          feedsOk mk d (Gen.nestedRecursiveWithout rec) f.spec)
+
+/-- the TEXT token a fed text leaves (only meaningful when the feed succeeds) -/
+def fedText (mk : Str → Except Err Str) (raw : Bool) (s : Str) : Str :=
+  match feedLit mk raw s with
+  | .ok x => x
+  | .error _ => s
+
+def reserPieceM (mk : Str → Except Err Str) (p : Piece) : Str :=
+  fedText mk (Gen.literalRawWithout false) (doubleLast p.lit) ++
+    (match p.field with | none => [] | some f => fedText mk (Gen.fieldRawWithout false) (reserField f))
+
+/-- concatenation of the TEXT tokens = `ColoredFormat.strip()` -/
+def reserializeM (mk : Str → Except Err Str) : List Piece → Str
+  | [] => []
+  | p :: ps => reserPieceM mk p ++ reserializeM mk ps
+
+/-- `Colorizer.prepare_format(t).strip()`; `mk` = what the markup parser makes of one text -/
+def prepareFormat (mk : Str → Except Err Str) (t : Str) : Except Err Str :=
+  if prepCheck levelsWithout t && feedsOk mk levelsWithout false t then .ok (reserializeM mk (parse t).1)
+  else .error .valueError
 
 /-! ### `_parse_with_formatting` (coloured messages) -/
 
@@ -114,57 +154,69 @@ def lgGetField {V} (env : Env V) (name : Str) (auto : Option Nat) : Except Err (
     | .error e => .error e
     | .ok v => .ok (v, auto1)
 
-def pwfPieces {V} (self : Str → Option Nat → Except Err (Str × Option Nat)) (env : Env V) :
+def pwfPieces {V} (self : Str → Option Nat → Except Err (Str × Option Nat))
+    (feedL feedV : Str → Except Err Str) (env : Env V) :
     List Piece → Option Nat → Except Err (Str × Option Nat)
   | [], auto => .ok ([], auto)
   | p :: ps, auto =>
-    match p.field with
-    | none =>
-      match pwfPieces self env ps auto with
-      | .ok (r, a) => .ok (p.lit ++ r, a)
-      | .error e => .error e
-    | some f =>
-      match lgGetField env f.name auto with
-      | .error e => .error e
-      | .ok (v, auto1) =>
-        match doConv env f.conv v with
+    match feedL p.lit with
+    | .error e => .error e
+    | .ok lit =>
+      match p.field with
+      | none =>
+        match pwfPieces self feedL feedV env ps auto with
+        | .ok (r, a) => .ok (lit ++ r, a)
         | .error e => .error e
-        | .ok v =>
-          match self f.spec auto1 with
+      | some f =>
+        match lgGetField env f.name auto with
+        | .error e => .error e
+        | .ok (v, auto1) =>
+          match doConv env f.conv v with
           | .error e => .error e
-          | .ok (spec, auto2) =>
-            match env.format v spec with
+          | .ok v =>
+            match self f.spec auto1 with
             | .error e => .error e
-            | .ok s =>
-              match pwfPieces self env ps auto2 with
-              | .ok (r, a) => .ok (p.lit ++ s ++ r, a)
+            | .ok (spec, auto2) =>
+              match env.format v spec with
               | .error e => .error e
+              | .ok s =>
+                match feedV s with
+                | .error e => .error e
+                | .ok s =>
+                  match pwfPieces self feedL feedV env ps auto2 with
+                  | .ok (r, a) => .ok (lit ++ s ++ r, a)
+                  | .error e => .error e
 
-/-- `_parse_with_formatting` with `levels` nesting levels left; returns the stripped text -/
-def pwf {V} (env : Env V) : Nat → Str → Option Nat → Except Err (Str × Option Nat)
-  | 0, _, _ => .error .valueError
-  | d + 1, t, auto =>
-    match pwfPieces (pwf env d) env (parse t).1 auto with
+/-- `_parse_with_formatting(…, recursive=rec)` with `levels` nesting levels left; returns the stripped
+text.  Which texts go through the markup parser is REGENERATED: the literal text of the template only
+when `Gen.literalRawWith rec` is false (top level), the formatted values never; the recursive call on
+the format spec runs with `recursive = Gen.nestedRecursiveWith rec`. -/
+def pwf {V} (mk : Str → Except Err Str) (env : Env V) : Nat → Bool → Str → Option Nat → Except Err (Str × Option Nat)
+  | 0, _, _, _ => .error .valueError
+  | d + 1, rec, t, auto =>
+    match pwfPieces (pwf mk env d (Gen.nestedRecursiveWith rec)) (feedLit mk (Gen.literalRawWith rec))
+        (feedLit mk (Gen.formattedRawWith rec)) env (parse t).1 auto with
     | .error e => .error e
     | .ok r => if (parse t).2.isSome then .error .valueError else .ok r
 
-/-- `Colorizer.prepare_message(t, args, kwargs).stripped` for markup-free `t` -/
-def coloredFormat {V} (env : Env V) (t : Str) : Except Err Str :=
-  (pwf env levelsWith t (some Gen.autoArgIndexDefault)).map (·.1)
+/-- `Colorizer.prepare_message(t, args, kwargs).stripped`; `mk` = what the markup parser makes of one text -/
+def coloredFormat {V} (mk : Str → Except Err Str) (env : Env V) (t : Str) : Except Err Str :=
+  (pwf mk env levelsWith false t (some Gen.autoArgIndexDefault)).map (·.1)
 
 /-! ### `Logger._log`, `Logger.add`, `Handler.emit` -/
 
-/-- `record["message"]` (markup-free message) -/
-def logMessage {V} (env : Env V) (colors hasArgs hasKwargs : Bool) (message : Str) : Except Err Str :=
+/-- `record["message"]` -/
+def logMessage {V} (mk : Str → Except Err Str) (env : Env V) (colors hasArgs hasKwargs : Bool) (message : Str) :
+    Except Err Str :=
   match Gen.messageBranch colors hasArgs hasKwargs with
   | .strFormat => strFormat env message
   | .untouched => .ok message
-  | .coloredFormat => coloredFormat env message
-  | .coloredSimple => .ok message
+  | .coloredFormat => coloredFormat mk env message
+  | .coloredSimple => mk message
 
 /-- the static format `Logger.add` hands to `prepare_format` -/
-def addFormat (format terminator : Str) : Except Err Str :=
-  prepareFormat (Gen.composeFormat format terminator)
+def addFormat (mk : Str → Except Err Str) (format terminator : Str) : Except Err Str :=
+  prepareFormat mk (Gen.composeFormat format terminator)
 
 /-- `formatted` in `Handler.emit`; `fmt` is the stripped precomputed format (`addFormat` for a static
 handler, `prepareFormat (f record)` for a dynamic one), `record` the formatter record as an `Env`
